@@ -54,7 +54,7 @@ pub fn search(game: &mut Game, depth: i8, max_time: i64, io_receiver: &IoWrapper
         beta  = score + 50;
 
         if score >= -MATE_VALUE && score < -MATE_BOUND {
-            print!("info score mate {} depth {} nodes {} time {} pv ", -(score + MATE_VALUE) / 2 - 1, current_depth, envir.nodes, envir.start_time.elapsed().unwrap().as_millis());
+            print!("info score mate {} depth {} nodes {} time {} pv ", -(score + MATE_VALUE) / 2, current_depth, envir.nodes, envir.start_time.elapsed().unwrap().as_millis());
         }
         else if score <= MATE_VALUE && score > MATE_BOUND {
             print!("info score mate {} depth {} nodes {} time {} pv ", (MATE_VALUE - score) / 2 + 1, current_depth, envir.nodes, envir.start_time.elapsed().unwrap().as_millis());
